@@ -158,3 +158,57 @@ def reaching_values(fn: ast.AST, name: str, at: ast.stmt, cfg=None) -> List[Opti
         if any(s == target or cfg.path(s, target, skip=others, skip_edges=("exc",)) is not None for s in start if s not in others):
             out.append(v)
     return out
+
+
+def guard_text_x(fn, stmt, pm=None, stop=()) -> List[str]:
+    """guard_text with every test expanded through single definitions (independent of the names of alias locals)."""
+    out = []
+    for g, br in guards_of(fn, stmt, pm):
+        if isinstance(g, ast.If):
+            out.append(("" if br == "true" else "not ") + f"({ast.unparse(expand(fn, g.test, stop=stop))})")
+        elif isinstance(g, (ast.For, ast.While)):
+            out.append(f"in-loop L{g.lineno}")
+    return out
+
+
+def local_stored_in_attr(fn, attr: str, recv="self") -> Optional[str]:
+    """Name of the local that is stored into `recv.attr` by a plain assignment (`self.psi_init = psi_init`)."""
+    for n in own_nodes(fn):
+        if isinstance(n, ast.Assign) and isinstance(n.value, ast.Name):
+            for t in n.targets:
+                if isinstance(t, ast.Attribute) and t.attr == attr and isinstance(t.value, ast.Name) and t.value.id == recv:
+                    return n.value.id
+    return None
+
+
+def canon_bound_text(fn: ast.AST, node: ast.expr, pm=None) -> str:
+    """Text of `node` with bound variables named by what they range over (`each(<iterable>)`) and the remaining locals of the
+    function numbered in order of appearance (`L0`, `L1` ...): equal for alpha-equivalent spellings."""
+    pm = pm or parent_map(fn)
+    mp: Dict[str, str] = {}
+    # enclosing for loops
+    cur = node
+    while id(cur) in pm:
+        par = pm[id(cur)][0]
+        if isinstance(par, (ast.For, ast.AsyncFor)) and isinstance(par.target, ast.Name) and cur is not par.iter:
+            mp.setdefault(par.target.id, f"each({ast.unparse(par.iter)})")
+        cur = par
+    # comprehension variables inside the node
+    for c in ast.walk(node):
+        if isinstance(c, (ast.ListComp, ast.SetComp, ast.GeneratorExp, ast.DictComp)):
+            for g in c.generators:
+                if isinstance(g.target, ast.Name):
+                    mp[g.target.id] = f"each({ast.unparse(g.iter)})"
+    params = {a.arg for a in fn.args.args + fn.args.kwonlyargs + fn.args.posonlyargs} if hasattr(fn, "args") else set()
+    local = set(assignments(fn)) - params
+    k = 0
+    e = copy.deepcopy(node)
+    for x in ast.walk(e):
+        if isinstance(x, ast.Name):
+            if x.id in mp:
+                x.id = mp[x.id]
+            elif x.id in local:
+                mp[x.id] = f"L{k}"
+                k += 1
+                x.id = mp[x.id]
+    return ast.unparse(e)
